@@ -2,8 +2,11 @@ package main
 
 import (
 	"bytes"
+	"context"
 	"fmt"
 	"math/rand"
+	"os"
+	"path/filepath"
 
 	"github.com/folbricht/desync"
 )
@@ -46,6 +49,50 @@ func c20WindowFrames(cfg Config, rep *Report, rng *rand.Rand, monitor func(what,
 					monitor("Decompress of a large-window frame returned other bytes than the content", caseLine, hx(out[:min(len(out), 32)]))
 				}
 			}
+		}
+	}
+}
+
+// c16WindowChunks: verify --repair on a compressed store whose chunk files are standard frames declaring windows of
+// 8..128 MiB around small content (what libzstd's streaming API writes at high levels or with long-distance matching):
+// nothing is reported and nothing is removed.  A decoder with a memory or window limit makes verify delete them all.
+func c16WindowChunks(cfg Config, rep *Report, rng *rand.Rand) {
+	dir := filepath.Join(cfg.Work, "window16")
+	os.RemoveAll(dir)
+	os.MkdirAll(dir, 0755)
+	defer os.RemoveAll(dir)
+	st, err := desync.NewLocalStore(dir, desync.StoreOptions{})
+	if err != nil {
+		return
+	}
+	var ids []desync.ChunkID
+	var logs []int
+	for windowLog := 23; windowLog <= 27; windowLog++ {
+		for k := 0; k < 2; k++ {
+			data := randBytes(rng, 1+rng.Intn(3000))
+			if k == 1 {
+				data = make([]byte, 1+rng.Intn(200000))
+			}
+			id := desync.ChunkID(desync.Digest.Sum(data))
+			sid := id.String()
+			os.MkdirAll(filepath.Join(dir, sid[:4]), 0755)
+			os.WriteFile(filepath.Join(dir, sid[:4], sid+".cacnk"), rfc8878Frame(data, windowLog, rng), 0644)
+			ids = append(ids, id)
+			logs = append(logs, windowLog)
+			rep.Count(fmt.Sprintf("verify.window window-log=%d len=%d id=%s", windowLog, len(data), sid), true, "verify-window-frame")
+		}
+	}
+	var out bytes.Buffer
+	verr := st.Verify(context.Background(), 2, true, &out)
+	if verr != nil || out.Len() > 0 {
+		rep.Disagree(Disagreement{Kind: "monitor", Case: "verify.window verify", Impl: fmt.Sprint(verr),
+			What: "verify (with repair) objects to valid chunk files whose frames declare a large window: " + clip(out.String(), 300)})
+	}
+	for i, id := range ids {
+		if ok, _ := st.HasChunk(id); !ok {
+			rep.Disagree(Disagreement{Kind: "monitor", Case: fmt.Sprintf("verify.window window-log=%d id=%s", logs[i], id),
+				What: fmt.Sprintf("verify --repair removed a valid chunk file whose frame declares a window of 2^%d bytes", logs[i])})
+			break
 		}
 	}
 }
